@@ -123,8 +123,7 @@ def write_if_changed(path, content):
 
 def lake_build(targets):
     """lake build of the given module targets (+ the driver). Returns (ok, log)."""
-    with LeanLock():
-        r = sh(["lake", "build"] + list(targets), cwd=LEAN)
+    r = sh([os.path.join(VERIF, "tools", "lk"), "build"] + list(targets))
     return r.returncode == 0, r.stdout
 
 
@@ -187,8 +186,7 @@ def audit(ctx, prop):
         body += "#print axioms %s\n" % n
     open(tmp, "w").write(body)
     try:
-        with LeanLock():
-            r = sh(["lake", "env", "lean", tmp], cwd=LEAN)
+        r = sh([os.path.join(VERIF, "tools", "lk"), "env", "lean", tmp])
     finally:
         os.unlink(tmp)
     out = r.stdout
